@@ -23,6 +23,7 @@ var substTable = map[string]string{
 	"crypto/ed25519.Verify":                         "Ed25519Verify",
 	"golang.org/x/crypto/curve25519.ScalarBaseMult": "ScalarBaseMult",
 	"golang.org/x/crypto/curve25519.ScalarMult":     "ScalarMult",
+	"strconv.ParseUint":                             "ParseUint",
 	"crypto/rand.Read":                              "RandRead",
 }
 
